@@ -245,6 +245,12 @@ func runCheck(P *Prog, prop, tier string, seed int, writeBase bool, t0 time.Time
 				}
 			}
 		}
+		// strict classes: a forbidden store (into the parsed tree, a package-level variable or table, or an escaping
+		// runInfo pointer) is a violation wherever it appears, also in code that did not exist at baseline time
+		strict := v.Obl.Class == "frame" && (strings.HasPrefix(v.Obl.Anchor, "ast.") || strings.HasPrefix(v.Obl.Anchor, "global") || strings.HasPrefix(v.Obl.Anchor, "escape."))
+		if strict && base != nil {
+			inBase = true
+		}
 		if base == nil || !inBase {
 			undecided = append(undecided, fmt.Sprintf("%s %s [%s] %s", strings.ToUpper(v.Status), v.Obl.Name, v.Obl.Pos, v.Obl.Desc))
 			continue
